@@ -10,16 +10,12 @@ package main
 // FILE histories (History.Files: the worker builds the directory tree, makes it its working
 // directory; operations readfile = Modules.Read, addpath = Modules.AddPath, putfile = a file appears,
 // getmodule of a name that is not registered = GetModule reads it through the search path; Process
-// finds imports and includes that nobody loaded through the search path) have a second twin, used for
-// nothing but RECOGNISING THE KNOWN FINDING D18-P1: on the unchanged tree Modules.Read puts the
-// directory of the file it found on the search path (findFile: documented) BEFORE Parse looks at the
-// text, and leaves it there when Parse refuses the text - a trace of a failed load (later imports are
-// satisfied from a directory nothing was loaded from; ms.Path shows it).  The DOCUMENTED-SIDE-EFFECT
-// twin runs the history with every refused Read that had found its file replaced by
-// AddPath(directory of that file).  A file history that differs from the strict twin is a violation;
-// it carries the tag D18-P1 only if, in every step and in every compared respect, the one value
-// behaves exactly like the documented-side-effect twin (so a half-way roll back - the directory off
-// ms.Path but still in the duplicate table of AddPath - is no D18-P1: it differs from both twins).
+// finds imports and includes that nobody loaded through the search path) are judged against the same
+// twin: a refused Read leaves no trace, not on ms.Path and not in the duplicate table of AddPath.
+// (Found by these histories and repaired in /repo 2488dfd, D18-P1: Modules.Read used to leave the
+// directory of a file it had found on the search path when Parse refused the text.  The twin that
+// replaced a refused Read by AddPath(directory) - used to tag that finding - is gone: every difference
+// from the strict twin is a violation.)
 
 import (
 	"fmt"
@@ -36,7 +32,6 @@ import (
 
 // twin: one reading of "the same history without the refused loads".
 type twin struct {
-	doc    bool // the documented-side-effect twin (file histories only)
 	shadow *yang.Modules
 	good   []Op // what a fresh value takes before its one run: accepted loads / Reads, AddPaths
 	// what a fresh value takes before it is asked about an OFFER (a load or Read that the one value
@@ -263,9 +258,6 @@ func runGo(h History) GoRes {
 	ms := newModules(h)
 	// the shadow: the same history, but a text the one value refuses is never offered to it
 	twins := []*twin{{shadow: newModules(h)}}
-	if fileMode {
-		twins = append(twins, &twin{doc: true, shadow: newModules(h)})
-	}
 	lookupsOnly := []error{fmt.Errorf("lookups only")}
 	lookups := func(v *yang.Modules) []string {
 		out := queries(v, lookupsOnly, false)
@@ -412,14 +404,6 @@ func runGo(h History) GoRes {
 					// what a fresh value that took the accepted operations says to the very same offer
 					ferr := applyOp(t.freshForOffer(h, complain(k)), op)
 					diffs[k].freshLoad = loadVerdictDiff(what, err, ferr)
-					if t.doc && sr.Found != nil {
-						side := Op{Op: "addpath", Name: filepath.Dir(sr.Found.Path)}
-						t.shadow.AddPath(side.Name)
-						t.accept(side)
-					}
-				}
-				if fileMode && sr.Found != nil {
-					res.DocSideEffects++
 				}
 			}
 		case "process":
@@ -441,10 +425,6 @@ func runGo(h History) GoRes {
 				break
 			}
 			before := nameMaps(ms)
-			found, haveFile := "", false
-			if !registered {
-				found, haveFile = directFile(op.Name)
-			}
 			e, errs := ms.GetModule(op.Name)
 			got := func(e *yang.Entry, errs []error) []string {
 				var out []string
@@ -470,14 +450,6 @@ func runGo(h History) GoRes {
 				for k, t := range twins {
 					fe, ferrs := t.freshForOffer(h, complain(k)).GetModule(op.Name)
 					diffs[k].get = returnedDiff(ga, got(fe, ferrs))
-					if t.doc && haveFile {
-						side := Op{Op: "addpath", Name: filepath.Dir(found)}
-						t.shadow.AddPath(side.Name)
-						t.accept(side)
-					}
-				}
-				if haveFile {
-					res.DocSideEffects++
 				}
 				break
 			}
@@ -590,15 +562,6 @@ func runGo(h History) GoRes {
 		st := diffs[0]
 		sr.BatchDiff, sr.Batch, sr.TreeDiff, sr.GetDiff, sr.ShadowDiff, sr.FreshLoadDiff = st.batch, st.batchDump, st.tree, st.get, st.shadow, st.freshLoad
 		sr.Findings = st.findings
-		if len(twins) > 1 {
-			if sr.DocDiff = diffs[1].first(); sr.DocDiff != "" {
-				res.DocDiffs++
-			} else if st.first() != "" && res.DocSideEffects > 0 {
-				// differs from the strict twin, and is in every compared respect what the
-				// documented-side-effect twin shows in this step: D18-P1
-				sr.DocExplains = true
-			}
-		}
 		res.Steps = append(res.Steps, sr)
 	}
 	return res
